@@ -33,7 +33,8 @@ EXTENDS Naturals, Sequences, FiniteSets, SequencesExt, TLC, Json
 CONSTANTS MaxReq,        \* max request header tokens
           MaxTr,         \* max request trailer tokens
           MaxResp,       \* max response header tokens
-          Deviations,    \* open known findings modelled as the code behaves (subset of AllDeviations)
+          Deviations,    \* open known findings modelled as the code behaves: used for the PREDICTIONS (conformance)
+          CheckDeviations, \* deviations switched on while checking P_C13: {} (the property), {d} to see d break it
           Emit,          \* TRUE: print REPLAY lines (generator)
           SampleMod,     \* generator: emit a non-core case iff Hash(c) % SampleMod = SampleRes
           SampleRes,
@@ -50,7 +51,7 @@ VARIABLE c               \* the case
 \*  TrailerCorr        the correlation header sent as an HTTP/2 trailer reaches the backend (handle_trailer
 \*                     filters four fixed names, not the configured correlation header name).
 AllDeviations == {"H1TrailerIdentity", "TrailerCorr", "NominatedToH2"}
-ASSUME Deviations \subseteq AllDeviations
+ASSUME Deviations \subseteq AllDeviations /\ CheckDeviations \subseteq AllDeviations
 
 ---------------------------------------------------------------------------
 (* Alphabets *)
@@ -183,31 +184,32 @@ FrontendReqEdits(k, hs) ==
 
 \* H2BlockConverter: connection-specific fields do not cross into HTTP/2
 Nominated(req) == IF Has(req, {"cHop"}) THEN {"x-hop"} ELSE {}
-DropOnH2(req, e) ==
+DropOnH2(D, req, e) ==
   \/ e.n \in ConnSpecificNames
   \/ (e.n = "te" /\ e.v = <<Tok("teGz")>>)
-  \/ ("NominatedToH2" \notin Deviations /\ e.n \in Nominated(req))
-BackConvert(k, req, hs) ==
-  IF k.back = "h2c" THEN SelectSeq(hs, LAMBDA e : ~DropOnH2(req, e)) ELSE hs
+  \/ ("NominatedToH2" \notin D /\ e.n \in Nominated(req))
+BackConvert(D, k, req, hs) ==
+  IF k.back = "h2c" THEN SelectSeq(hs, LAMBDA e : ~DropOnH2(D, req, e)) ELSE hs
 
 \* trailers: pkawa::handle_trailer (H2 front) / kawa trailer phase (H1 front)
-TrailerDropped(k, t) ==
+TrailerDropped(D, k, t) ==
   IF k.fp.front = "h2"
   THEN \/ Name(t) \in {"x-real-ip", "x-forwarded-for", "forwarded", "x-request-id"}
-       \/ (Name(t) = "CORR" /\ "TrailerCorr" \notin Deviations)
-  ELSE \/ (Name(t) \in IdentityNames \ {"CORR"} /\ "H1TrailerIdentity" \notin Deviations)
-       \/ (Name(t) = "CORR" /\ "H1TrailerIdentity" \notin Deviations /\ "TrailerCorr" \notin Deviations)
-TrailersOut(k, tr) ==
-  LET kept == SelectSeq(tr, LAMBDA t : ~TrailerDropped(k, t))
+       \/ (Name(t) = "CORR" /\ "TrailerCorr" \notin D)
+  ELSE Name(t) \in IdentityNames /\ "H1TrailerIdentity" \notin D
+TrailersOut(D, k, tr) ==
+  LET kept == SelectSeq(tr, LAMBDA t : ~TrailerDropped(D, k, t))
   IN [i \in DOMAIN kept |-> El(Name(kept[i]), <<Tok(kept[i])>>, "client")]
 
-EditRequest(k, req, tr) ==
+EditRequestD(D, k, req, tr) ==
   IF FrontRejects(k, req)
   THEN [outcome |-> "reject", hdrs |-> <<>>, cookies |-> <<>>, trailers |-> <<>>]
   ELSE [outcome  |-> "forward",
-        hdrs     |-> BackConvert(k, req, FrontendReqEdits(k, Editor(k, req))),
+        hdrs     |-> BackConvert(D, k, req, FrontendReqEdits(k, Editor(k, req))),
         cookies  |-> CookiesOut(k, req),
-        trailers |-> TrailersOut(k, tr)]
+        trailers |-> TrailersOut(D, k, tr)]
+\* the prediction the implementation is compared with: the code as it is, open findings included
+EditRequest(k, req, tr) == EditRequestD(Deviations, k, req, tr)
 
 ---------------------------------------------------------------------------
 (* Response side *)
@@ -289,8 +291,8 @@ NoConnSpecificOnH2(k, req, hs) ==
                                           /\ hs[i].v # <<Tok("teGz")>>
                                           /\ hs[i].n \notin Nominated(req)
 
-P_Request(k, req, tr) ==
-  LET o == EditRequest(k, req, tr) IN
+P_Request(D, k, req, tr) ==
+  LET o == EditRequestD(D, k, req, tr) IN
   o.outcome = "forward" =>
     /\ Truthful(k, o.hdrs)
     /\ Count(o.hdrs, "x-request-id") = 1
@@ -321,8 +323,9 @@ P_Response(k, req, resp) ==
      /\ \A i \in DOMAIN o.may : /\ o.may[i] = El("set-cookie", <<Sym("STICKYSET", k.stickyName)>>, "proxy")
                                 /\ k.stickyCluster /\ StickyFound(k, req) # "good"
 
-P_C13 == /\ P_Request(c.k, c.req, c.tr)
-         /\ (EditRequest(c.k, c.req, c.tr).outcome = "forward" => P_Response(c.k, c.req, c.resp))
+P_Case(D, s) == /\ P_Request(D, s.k, s.req, s.tr)
+                /\ (~FrontRejects(s.k, s.req) => P_Response(s.k, s.req, s.resp))
+P_C13 == P_Case(CheckDeviations, c)
 
 ---------------------------------------------------------------------------
 (* Enumeration *)
@@ -404,6 +407,16 @@ Hash(s) == (HashSeq(ReqTokSeq, s.req, 7) * 131 + HashSeq(TrTokSeq, s.tr, 3) * 17
 
 \* always emitted: the sampling only thins the bulk
 Selected(s) == Complete(s) /\ Hash(s) % SampleMod = SampleRes % SampleMod
+
+\* Every open deviation must still break the property in the model: one witness case per deviation, evaluated
+\* by TLC at start-up (the thorough tier also re-runs the whole model check with the deviation on).
+WitnessCfg == [fp |-> [front |-> "h1", tls |-> FALSE], back |-> "h2c", peer |-> "v4", elide |-> TRUE, send |-> TRUE,
+               corrName |-> "custom", stickyName |-> "default", stickyCluster |-> FALSE, edits |-> "none", hsts |-> FALSE]
+Witness(d) ==
+  CASE d = "NominatedToH2"     -> [k |-> WitnessCfg, req |-> <<"cHop", "hop">>, tr |-> <<>>, resp |-> <<>>]
+    [] d = "H1TrailerIdentity" -> [k |-> WitnessCfg, req |-> <<>>, tr |-> <<"tXri">>, resp |-> <<>>]
+    [] d = "TrailerCorr"       -> [k |-> [WitnessCfg EXCEPT !.fp = [front |-> "h2", tls |-> TRUE]], req |-> <<>>, tr |-> <<"tCorr">>, resp |-> <<>>]
+ASSUME \A d \in AllDeviations : P_Case({}, Witness(d)) /\ ~P_Case({d}, Witness(d))
 
 \* which open deviations shape the prediction of this case (for the evidence: known findings seen in replay)
 DevRelevant(d, s) ==
